@@ -210,6 +210,31 @@ Exp_apply(f, a) ==
                         ELSE f.dims[i]],
             !.vars = [i \in 1..Len(f.vars) |-> ApplyVar(a, f.vars[i])]]
 
+\* ================================================= "fuzzy" dimension addressing
+\* The string forms of the command line (slice_dim, reduce_dim) address the named
+\* dimension AND its numbered variants: every dimension whose name is the given
+\* name followed by one or more digits (layer -> layer1, layer47; not layer2m).
+\* a.fz = [names : dimension names of the file, chars : their characters].
+IsDigitCh(ch) == ch \in {"0", "1", "2", "3", "4", "5", "6", "7", "8", "9"}
+FzChars(a, name) == a.fz.chars[CHOOSE i \in 1..Len(a.fz.names) : a.fz.names[i] = name]
+Numbered(base, key) == /\ Len(key) > Len(base) /\ SubSeq(key, 1, Len(base)) = base
+                       /\ \A i \in (Len(base) + 1)..Len(key) : IsDigitCh(key[i])
+FzKnown(f, a, d) == (\E i \in 1..Len(a.fz.names) : a.fz.names[i] = d)
+                    /\ \A i \in 1..Len(f.dims) : \E j \in 1..Len(a.fz.names) : a.fz.names[j] = f.dims[i].n
+\* the addressed dimensions, in the order of the file
+FuzzyTargets(f, a, d) ==
+  IF ~FzKnown(f, a, d) THEN <<d>>
+  ELSE SelectSeq([i \in 1..Len(f.dims) |-> f.dims[i].n],
+                 LAMBDA k : k = d \/ Numbered(FzChars(a, d), FzChars(a, k)))
+FzApply(f, a) ==
+  IF "fz" \notin DOMAIN a \/ Len(a.funcs) # 1 THEN a
+  ELSE LET T == FuzzyTargets(f, a, a.funcs[1].d) IN
+       [a EXCEPT !.funcs = [i \in 1..Len(T) |-> [a.funcs[1] EXCEPT !.d = T[i]]]]
+FzSlice(f, a) ==
+  IF "fz" \notin DOMAIN a \/ Len(a.sels) # 1 THEN a
+  ELSE LET T == FuzzyTargets(f, a, a.sels[1].d) IN
+       [a EXCEPT !.sels = [i \in 1..Len(T) |-> [a.sels[1] EXCEPT !.d = T[i]]]]
+
 \* ====================================================================== stack
 \* fs : sequence of files (receiver first); a.dim : name
 Dom_stack(fs, a) ==
